@@ -27,7 +27,16 @@ TEXTRA = {
     "core::str::parse": [((OK, F0), 0, ())],
     "std::slice::to_vec": [((), 0, ())], "core::slice::to_vec": [((), 0, ())],
 }
-STOP = lambda t: callee_name(t) in ("core::slice::get", "models::envelope::pae_v1::consume_load_len", "core::slice::splitn", "core::slice::strip_prefix")
+LEN_PARSER = {"name": None}      # the private length-field parser, found by role (find_length_parser)
+STOP = lambda t: callee_name(t) in ("core::slice::get", LEN_PARSER["name"], "core::slice::splitn", "core::slice::strip_prefix")
+
+
+def find_length_parser(fx, cg, unpack):
+    """The decoder's length-field parser, by role: the local function, reachable from pae_unpack, that returns
+    Result<(usize, &[u8]), _> (a parsed length and the rest of the input)."""
+    c = [fx.fns[k] for k in cg.reachable([unpack["key"]]) if k != unpack["key"] and fx.fns[k]["kind"] in ("Fn", "AssocFn")
+         and fx.fns[k]["locals"][0]["ty"].replace(" ", "").startswith("std::result::Result<(usize,&")]
+    return c[0] if len(c) == 1 else None
 
 
 def find(fx, suffix):
@@ -44,12 +53,13 @@ def run(ctx):
     fx = ctx.fx
     pack = find(fx, "DSSEParser>::pae_pack")
     unpack = find(fx, "DSSEParser>::pae_unpack")
-    cons = fx.fn_opt("models::envelope::pae_v1::consume_load_len")
+    cons = find_length_parser(fx, ctx.cg, unpack) if unpack else None
+    LEN_PARSER["name"] = cons["path"] if cons else None
     if not pack or not unpack:
         ctx.bad("C20/D1", "anchors", "PaeV1::pae_pack / pae_unpack not found (failing closed)")
         return
     # ---------------- D1 pack
-    POLICY = ("private-except", frozenset(["models::envelope::pae_v1::consume_load_len"]))
+    POLICY = ("private-except", frozenset([LEN_PARSER["name"]]))
     pb = ctx.region(None, policy=POLICY, key=pack["key"], ps=True)
     args = []
     for i, t in pb.calls():
@@ -108,7 +118,7 @@ def run(ctx):
     ctx.inst("C20/D1", "payload appended verbatim after the header", okc, detail, pack["at"])
     # ---------------- D2 unpack
     ub = ctx.region(None, policy=POLICY, key=unpack["key"], ps=True)
-    cons_calls = ub.calls_named("models::envelope::pae_v1::consume_load_len")
+    cons_calls = ub.calls_named(LEN_PARSER["name"]) if LEN_PARSER["name"] else []
     ctx.inst("C20/D2", "two length fields are parsed", len(cons_calls) == 2, "%d call(s) of the length parser" % len(cons_calls), unpack["at"])
     if len(cons_calls) != 2:
         return
@@ -186,7 +196,7 @@ def run(ctx):
     ctx.inst("C20/D2", "second length field starts one separator after the type", ok2, detail, t2["at"])
     # the length parser
     if cons is None:
-        ctx.bad("C20/D2", "length parser", "consume_load_len not found")
+        ctx.bad("C20/D2", "length parser", "no local function returning Result<(usize, &[u8])> is reachable from pae_unpack")
     else:
         cb = body_of(fx, cons["key"])
         ctx.touch_body(cb)
@@ -224,14 +234,8 @@ def run(ctx):
         ctx.bad("C20/D2", "decoder strips the prefix the encoder writes", "expected one strip_prefix call, found %d" % len(sp))
     # ---------------- D3
     n = 0
-    dec_keys = [unpack["key"]] + ([cons["key"]] if cons else [])
-    for blk in ub.blocks:      # private helpers of the decoder (inlined into its region)
-        if blk.get("origin_key") and blk["origin_key"] not in dec_keys:
-            dec_keys.append(blk["origin_key"])
-    for k in list(dec_keys):
-        for ck in fx.closures_of.get(k, []):
-            if ck not in dec_keys:
-                dec_keys.append(ck)
+    # every local function and closure the decoder can reach (helpers called from error-message closures included)
+    dec_keys = [unpack["key"]] + [k for k in sorted(ctx.cg.reachable([unpack["key"]])) if k != unpack["key"] and not fx.fns[k].get("exp")]
     for f in [fx.fns[k] for k in dec_keys]:
         b = body_of(fx, f["key"])
         for (bb, t, kind, descr) in C14.sites_of(f):
